@@ -1496,6 +1496,37 @@ class Interp(object):
     def ex_DictComp(self, e, fr):
         # {k: v for ...}: a dictionary whose keys are not enumerated; every value is the join element
         saved = dict(fr.state.env)
+        if len(e.generators) == 1 and isinstance(e.generators[0].target, ast.Name):
+            # ... unless it runs over the keys of a dictionary all of whose keys are known (or a short literal sequence of constants): then it
+            # is run key by key, exactly
+            g = e.generators[0]
+            it = self.ev(g.iter, fr)
+            keys = None
+            if it.kind == K_DICT and it.dmay is not None and it.elem is None and it.dvals is not None and set(it.dmay) <= set(it.dvals) and len(it.dvals) <= 12:
+                keys = [const_av(k_) for k_ in it.dvals if k_ in it.dmay]
+                certain_ = {k_: (k_ in (it.dmust or ())) for k_ in it.dvals}
+            elif it.kind in (K_TUPLE, K_LIST) and it.items is not None and len(it.items) <= 12 and all(x is not None and x.has_const() for x in it.items):
+                keys = list(it.items)
+                certain_ = {x.const: True for x in keys}
+            if keys is not None:
+                dv, must, ok_ = {}, set(), True
+                for kav in keys:
+                    fr.state.env = dict(saved)
+                    fr.state.env[g.target.id] = kav
+                    verdicts = [truthiness(self.ev(c, fr)) for c in g.ifs]
+                    if any(v_ is False for v_ in verdicts):
+                        continue
+                    kk = self.ev(e.key, fr)
+                    if not kk.has_const():
+                        ok_ = False
+                        break
+                    vv = self.ev(e.value, fr)
+                    dv[kk.const] = join_av(dv[kk.const], vv) if kk.const in dv else vv
+                    if all(v_ is True for v_ in verdicts) and certain_.get(kav.const, False):
+                        must.add(kk.const)
+                fr.state.env = saved
+                if ok_:
+                    return AV(kind=K_DICT, dvals=dv, dmust=frozenset(must), dmay=frozenset(dv), origin=frozenset([self.alloc_tok(fr, e)]))
         for g in e.generators:
             it = self.ev(g.iter, fr)
             elem, trip, _ = self.iter_elem(it, fr, e)
@@ -1528,7 +1559,18 @@ class Interp(object):
                     alg[at] = alg_lub(alg.get(at, CONST), p.a(at))
                 tags |= p.tags
                 indef = indef or p.indef
-        return AV(kind=K_SLICE, items=tuple(parts), alg=alg, tags=tags, indef=indef)
+        note = None
+        if e.lower is not None and e.upper is not None and e.step is None and isinstance(e.upper, ast.BinOp) and isinstance(e.upper.op, ast.Add):
+            # x[a:a + k]: k elements whatever the offset a is (bounds assumed inside the array, as everywhere): kept for offsets that have no
+            # symbolic value of their own (an offset chosen by a conditional expression, joined over branches)
+            lo_txt = ast.dump(e.lower)
+            for a_, k_ in ((e.upper.left, e.upper.right), (e.upper.right, e.upper.left)):
+                if ast.dump(a_) == lo_txt and not any(isinstance(x, ast.Call) for x in ast.walk(a_)):
+                    kv = self.ev(k_, fr)
+                    if kv.sym is not None and kv.kind == K_SCALAR:
+                        note = ("span", kv.sym)
+                    break
+        return AV(kind=K_SLICE, items=tuple(parts), alg=alg, tags=tags, indef=indef, note=note)
 
     def ev_index(self, s, fr):
         return self.ev(s, fr)
